@@ -236,11 +236,22 @@ def _get_hidden_metadata_mutates(note: Note) -> list[_MetadataMutate]:
             if len(value.split()) > 1
             else f"{key}::{value}"
         )
-        if f"{key}::" not in note.body:
+        if not _note_body_has_prop_key(note.body, key):
             metadata_mutates.append(
                 _MetadataMutate(mtype="properties", value=prop_value)
             )
     return metadata_mutates
+
+
+def _note_body_has_prop_key(note_body: str, key: str) -> bool:
+    """Returns True iff {note_body} itself defines the property {key}.
+
+    A longer key that merely ends with {key} (e.g. 'tmp::3' for 'p') does not
+    count.
+    """
+    return any(
+        word.lstrip("([").startswith(f"{key}::") for word in note_body.split()
+    )
 
 
 def _note_body_has_tag(note_body: str, tag: str) -> bool:
